@@ -42,7 +42,8 @@ struct gs_bas   { unsigned long upto[NB], writes[NB]; };
  * into one cell that is made nondeterministic before each read (values are opaque, only safety is tracked) */
 #define NSC 8
 struct gs_sc    { unsigned long lo[NSC], hi[NSC]; V cell; unsigned long hcols, hrows; };
-struct gs_lc    { unsigned long n; int cid, b, idy; V beta; unsigned long calls; };   /* last lin_comb */
+struct gs_lc    { unsigned long n; int cid, b, idy; V beta; unsigned long calls;       /* last lin_comb */
+                  unsigned long coff, boff; size_t iy; };                              /* offset form (bh_lin_comb2): first coefficient, first basis vector, element index of y */
 struct gs_all {
   struct gs_norm norm; struct gs_res res; struct gs_pa pa; struct gs_ax ax; struct gs_clear clear;
   struct gs_spmv spmv; struct gs_apz apz; struct gs_pspmv pspmv; struct gs_copy copy;
@@ -268,6 +269,19 @@ __CPROVER_requires((math_is_zero(beta) || H_DEF(y)) && H_WOK(y) && !(H_ISB(y) &&
 __CPROVER_assigns(*y.p, gs.bas, gs.lc)
 __CPROVER_ensures(H_OUT_ENS(y))
 __CPROVER_ensures(gs.lc.n == n && gs.lc.cid == cid && gs.lc.b == b && gs.lc.beta == beta && gs.lc.idy == H_ID(y) && gs.lc.calls == OLDV(gs.lc.calls) + 1);
+
+/* offset form  lin_comb(n, &c[coff], &B_b[boff], beta, y):  y = sum_{i<n} c[coff+i] * B_b[boff+i] + beta y.
+ * backend::lin_comb reads c[0], v[0] unconditionally: n >= 1 is part of its precondition.  y may be an element of the same basis outside the range
+ * read.  The state of the coefficient array is the caller's obligation (no window requirement here). */
+void bh_lin_comb2(size_t n, int cid, size_t coff, int b, size_t boff, V beta, hv y)
+__CPROVER_requires(b >= 0 && b < NB && cid >= 0 && cid < NSC && n >= 1)
+__CPROVER_requires(boff <= gs_blen[b] && n <= gs_blen[b] - boff && boff + n <= gs.bas.upto[b] && coff <= gs_sclen[cid] && n <= gs_sclen[cid] - coff)
+__CPROVER_requires((math_is_zero(beta) || H_DEF(y)) && H_WOK(y) && !(H_ISB(y) && y.b == b && y.i >= boff && y.i - boff < n))
+__CPROVER_assigns(*y.p, gs.bas, gs.lc)
+__CPROVER_ensures(H_OUT_ENS(y))
+__CPROVER_ensures(gs.lc.n == n && gs.lc.cid == cid && gs.lc.b == b && gs.lc.beta == beta && gs.lc.idy == H_ID(y) && gs.lc.iy == H_IX(y) && gs.lc.coff == coff && gs.lc.boff == boff
+                  && gs.lc.calls == OLDV(gs.lc.calls) + 1);
+#define LIN_COMB2(n, cid, coff, b, boff, beta, y) bh_lin_comb2(n, cid, coff, b, boff, beta, y)
 
 /* preconditioner::spmv on handles: the contract of PSPMV_CONTRACT lifted to handles; ENFORCED on the real body
  * by unit precond_side_spmv_h */
